@@ -16,6 +16,60 @@ pub uninterp spec fn file_pos(f: &std::fs::File) -> int;
 /// ghost: the full 32 KiB blocks of WAL file number `n` of the directory `dir`
 pub uninterp spec fn dir_file_blocks(dir: std::path::PathBuf, n: u64) -> Seq<Seq<u8>>;
 
+// ---------------------------------------------------------------- the directory listing, as `Directory::open` sees it
+/// ghost: what `read_dir(p)` yields now, in the order the OS returns it (entries or I/O errors)
+pub uninterp spec fn dir_listing(p: &std::path::Path) -> Seq<std::io::Result<std::fs::DirEntry>>;
+/// ghost: the entry itself (not what a symlink points to) is a regular file
+pub uninterp spec fn entry_is_regular(e: &std::fs::DirEntry) -> bool;
+pub uninterp spec fn ft_is_file(t: std::fs::FileType) -> bool;
+pub uninterp spec fn entry_name(e: &std::fs::DirEntry) -> std::ffi::OsString;
+pub uninterp spec fn os_ref(s: &std::ffi::OsString) -> &std::ffi::OsStr;
+/// ghost: the name as characters, if it is valid UTF-8
+pub uninterp spec fn os_utf8(s: &std::ffi::OsStr) -> Option<Seq<char>>;
+pub uninterp spec fn path_buf_of(p: &std::path::Path) -> std::path::PathBuf;
+
+pub open spec fn is_digit(c: char) -> bool { '0' <= c && c <= '9' }
+pub open spec fn dec_value(s: Seq<char>) -> nat
+    decreases s.len(),
+{
+    if s.len() == 0 { 0 } else { dec_value(s.drop_last()) * 10 + ((s.last() as u32 - '0' as u32) as nat) }
+}
+/// C17: a WAL file name is `wal-` followed by exactly 20 decimal digits whose value fits u64
+pub open spec fn parse_wal_name(s: Seq<char>) -> Option<u64> {
+    if s.len() == 24 && s.subrange(0, 4) == seq!['w', 'a', 'l', '-'] && (forall|i: int| 4 <= i < 24 ==> is_digit(#[trigger] s[i]))
+        && dec_value(s.subrange(4, 24)) <= u64::MAX {
+        Some(dec_value(s.subrange(4, 24)) as u64)
+    } else {
+        None
+    }
+}
+/// the number a directory entry contributes to the tracker: only a regular file with a UTF-8 name of the WAL form counts
+pub open spec fn entry_num(x: std::io::Result<std::fs::DirEntry>) -> Option<u64> {
+    match x {
+        Ok(e) => if entry_is_regular(&e) { match os_utf8(os_ref(&entry_name(&e))) { Some(s) => parse_wal_name(s), None => None } } else { None },
+        Err(_) => None,
+    }
+}
+/// the numbers of the WAL files among the listed entries
+pub open spec fn nums_of(items: Seq<std::io::Result<std::fs::DirEntry>>) -> Set<u64>
+    decreases items.len(),
+{
+    if items.len() == 0 { Set::empty() } else {
+        match entry_num(items.last()) { Some(n) => nums_of(items.drop_last()).insert(n), None => nums_of(items.drop_last()) }
+    }
+}
+/// pushing an element adds it to the set of elements
+pub proof fn lemma_push_to_set(v0: Seq<u64>, v1: Seq<u64>, x: u64)
+    requires v1 == v0.push(x),
+    ensures v1.to_set() =~= v0.to_set().insert(x),
+{
+    assert forall|y: u64| v1.to_set().contains(y) <==> v0.to_set().insert(x).contains(y) by {
+        if v1.contains(y) { let i = choose|i: int| 0 <= i < v1.len() && v1[i] == y; if i < v0.len() { assert(v0[i] == y); } }
+        if v0.contains(y) { let i = choose|i: int| 0 <= i < v0.len() && v0[i] == y; assert(v1[i] == y); }
+        if y == x { assert(v1[v0.len() as int] == y); }
+    }
+}
+
 /// a block is 32 KiB
 pub broadcast axiom fn axiom_dir_file_blocks_len(dir: std::path::PathBuf, n: u64, i: int)
     requires 0 <= i < dir_file_blocks(dir, n).len(),
